@@ -9,14 +9,16 @@ D16        == 1..6
 D3         == {1, 2, 6}
 TotalsAll  == {255, 256, 257, 1022, 1023, 1024, 1025, 1026, 2000, 2047, 2048, 2049, 3000, 4000, 4094, 4095} \cup SeedTotals
 TotalsQ    == {256, 1022, 1023, 1024, 1025, 2047, 2048, 2049, 4094, 4095} \cup SeedTotals
-PatAll     == {"ascii", "space", "utf8", "dot", "punct", "mixed"}
-PatQ       == {"ascii", "punct", "mixed"}
-ViaAll     == {"direct", "relative", "filelink", "dirlink"}
-ViaQ       == {"direct", "filelink"}
+(* (the classes ctrl, lead, dots, delsfx, edge occur through the pattern "odd"; "mb" also on its own: NAME_MAX bytes of multi-byte characters) *)
+PatAll     == {"ascii", "space", "utf8", "dot", "punct", "mixed", "mb", "odd", "same", "one"}
+PatQ       == {"ascii", "punct", "mixed", "odd", "same", "one"}
+ViaAll     == {"direct", "relative", "filelink", "dirlink", "fakeargv0"}
+ViaQ       == {"direct", "filelink", "fakeargv0"}
 (* programs installed at the top of a root directory (run by the runner inside a chroot): /x, /d/x, /a/b/x *)
 NoBase     == <<>>
 D123       == {1, 2, 3}
 TotalsJail == {1024, 2049}
 ViaJail    == {"direct", "relative", "filelink"}
+PatJail    == {"ascii", "punct", "mixed", "one"}
 ASSUME Laws
 =============================================================================
